@@ -194,18 +194,18 @@ def directed_scripts():
         out.append({"id": "D9-timer-handover-%d" % k, "cfg": dict(base, nparts={"t": 1}, batchTimeoutMs=15), "outcomes": {}, "steps": [
             {"op": "hold", "gate": "bqput:1"}, {"op": "call", "c": 1, "g": 1, "msgs": [M(40)]},
             {"op": "waitgate", "gate": "bqput:1"}, {"op": "call", "c": 2, "g": g2, "msgs": second},
-            {"op": "sleep", "ms": 40}, {"op": "release", "gate": "bqput:1"}]})
+            {"op": "sleep", "ms": 40}, {"op": "release", "gate": "bqput:1"}, {"op": "sleep", "ms": 40}]})
         out[-1]["cfg"]["async"] = asyn
     # D10: same for the hand-over done by Close (pw.close) and by a full batch
     out.append({"id": "D10-close-handover", "cfg": dict(base, nparts={"t": 1}, batchTimeoutMs=500), "outcomes": {}, "steps": [
         {"op": "hold", "gate": "bqput:1"}, {"op": "call", "c": 1, "g": 1, "msgs": [M(40)]}, {"op": "sleep", "ms": 5},
         {"op": "close"}, {"op": "waitgate", "gate": "bqput:1"}, {"op": "call", "c": 2, "g": 1, "msgs": [M(40), M(40)]},
-        {"op": "sleep", "ms": 30}, {"op": "release", "gate": "bqput:1"}]})
+        {"op": "sleep", "ms": 30}, {"op": "release", "gate": "bqput:1"}, {"op": "sleep", "ms": 40}]})
     out[-1]["cfg"]["async"] = True
     out.append({"id": "D10-full-handover", "cfg": dict(base, nparts={"t": 1}, batchTimeoutMs=500), "outcomes": {}, "steps": [
         {"op": "hold", "gate": "bqput:1"}, {"op": "call", "c": 1, "g": 1, "msgs": [M(40), M(40), M(40)]},
         {"op": "waitgate", "gate": "bqput:1"}, {"op": "call", "c": 2, "g": 2, "msgs": [M(40)]},
-        {"op": "sleep", "ms": 30}, {"op": "release", "gate": "bqput:1"}]})
+        {"op": "sleep", "ms": 30}, {"op": "release", "gate": "bqput:1"}, {"op": "sleep", "ms": 40}]})
     out[-1]["cfg"]["async"] = True
     # D11: a BatchTimeout far beyond the scenario (size-only batching): batches closed by the overflow path, by
     # becoming full and by Close; Close and the calls must not wait for any batch timer (C09), and a batch opened
@@ -332,12 +332,12 @@ def tid_of(out):
     return m[-1] if m else None
 
 
-def run_scripts(ctx, scripts, tag):
+def run_scripts(ctx, scripts, tag, par=24):
     ctx.vh_keep = getattr(ctx, "vh_keep", None) or ["writer.go", "conn.go"]
     sp = os.path.join(ctx.work, "wscripts-%s.ndjson" % tag)
     tp = os.path.join(ctx.work, "wtraces-%s.ndjson" % tag)
     write_ndjson(sp, scripts)
-    p = ctx.run_vh(["writer", "-scripts", sp, "-out", tp, "-par", "24"], timeout=1500)
+    p = ctx.run_vh(["writer", "-scripts", sp, "-out", tp, "-par", str(par)], timeout=1500)
     if p.returncode != 0:
         raise Inconclusive("vh writer failed: " + p.stderr[-2000:])
     traces = split_traces(read_ndjson(tp))
@@ -413,6 +413,30 @@ def conformance(ctx, traces):
         accepted += len(remaining)
         remaining = []
     return accepted, divs
+
+
+def offered_part(ctx):
+    """C13, Writer side: the partition lists a Writer supplies to its Balancer (scripted and real transport), for topics of
+    different sizes used one after the other in one process (the lists are cached process-wide)."""
+    rng = random.Random(ctx.seed * 613 + 1)
+    scripts = []
+    sizes = [1, 2, 3, 5, 8, 13, 2, 6, 1, 130, 4, 129]
+    for k, n in enumerate(sizes if ctx.tier == "quick" else sizes * 6):
+        for net in ("", "real"):
+            topics = {"t": n} if k % 3 else {"t": n, "u": 1 + (n * 7) % 11}
+            msgs = []
+            for t, np in sorted(topics.items()):
+                msgs += [{"sz": 40, "topic": t, "p": p} for p in sorted({0, np - 1, rng.randrange(np), rng.randrange(np)})]
+            cfg = {"batchSize": 50, "batchBytes": 100000, "maxAttempts": 1, "acked": True, "async": False, "topic": "", "nparts": topics,
+                   "batchTimeoutMs": 5, "compression": 0}
+            if net:
+                cfg.update(net="real", produceVersion=7, writeTimeoutMs=2000)
+            scripts.append({"id": "O%d-%s%d" % (k, net[:1], n), "cfg": cfg, "outcomes": {}, "steps": [{"op": "call", "c": 1, "g": 1, "msgs": msgs}, {"op": "waitcall", "c": 1}]})
+    traces = run_scripts(ctx, scripts, "offered", par=1)      # one after the other: the order of cache growth is the scripts' order
+    checked = monitor(ctx, scripts, traces, ["C13w_OfferedAll", "C01_NoStrayWrites", "C01_NilMeansAcked"], [])
+    nb = sum(1 for t in traces for e in t if e.get("ev") == "balance")
+    ctx.log("writer-supplied partition lists: %d scenarios, %d Balance calls" % (len(scripts), nb))
+    return {"scenarios": len(scripts), "traces_monitored": checked, "balance_calls": nb, "partition_counts": sorted(set(sizes))}
 
 
 def real_part(ctx, invs, aprops, cuts):
